@@ -625,6 +625,7 @@ func runC07(seed int64, tier string, outDir string) *result {
 		}
 		add(c07Mod{Field: "clock.id", Kind: "append 00", Hex: hex.EncodeToString(append(append([]byte{}, cidb...), 0))})
 		add(c07Mod{Field: "clock.id", Kind: "drop last", Hex: hex.EncodeToString(cidb[:len(cidb)-1])})
+		add(c07Mod{Field: "clock.id", Kind: "removed", Hex: ""})
 		for _, o := range [][]byte{pubA, pubB} {
 			if !bytes.Equal(o, cidb) {
 				add(c07Mod{Field: "clock.id", Kind: "other identity's key", Hex: hex.EncodeToString(o)})
